@@ -140,3 +140,18 @@ Proof. intros pk [->| ->]; exact cmp_capacity_flat_valid. Qed.
 Lemma victim_order_gen_item : forall vts qts l r,
   victim_queue_order_fn vts qts l r = victim_order_gen vts qts by_time_uid l r.
 Proof. reflexivity. Qed.
+
+(* the same subtree tie seen through the VICTIM order (capacity registers its
+   VictimQueueOrderFn in the same block): with the preemptor w in a third
+   subtree the victim comparator ties on x, y, z (all at level 0 from w), the
+   reversed - cyclic - queue order decides, and the victim order of three
+   DIFFERENT queues is a 3-cycle; BuildVictimsPriorityQueue orders victims of
+   different queues by exactly this function *)
+Definition cap_w := mkRQueue (mkItem 3 0 4 None) 0 true [0; 3] [mkQNode 5 true; mkQNode 5 true; mkQNode 2 true].
+
+Theorem victim_order_capacity_hier_refuted :
+  let vlt := victim_order_gen (one_slot (cmp_capacity_victim cap_w)) (one_slot cmp_capacity_hier) rq_tb in
+  cmp_capacity_victim cap_w cap_x cap_y = 0 /\ cmp_capacity_victim cap_w cap_y cap_z = 0 /\
+  vlt cap_y cap_x = true /\ vlt cap_z cap_y = true /\ vlt cap_x cap_z = true /\
+  vlt cap_x cap_y = false /\ vlt cap_y cap_z = false /\ vlt cap_z cap_x = false.
+Proof. vm_compute. repeat split; reflexivity. Qed.
